@@ -345,6 +345,42 @@ func init() {
 		}
 		return nil
 	})
+	// ---- sync.Pool: Get hands back an object put earlier or a fresh one - which, depends on GC timing and on the P the
+	// goroutine runs on, so it is a nondeterminism source that is forked over (reuse the most recent / call New) ----
+	reg("(*sync.Pool).Put", "pool of recycled objects (per Pool value)", func(in *Interp, fn *ssa.Function, a []Value) Value {
+		p := in.ptr(a[0], "Pool.Put")
+		if in.pools == nil {
+			in.pools = map[string][]Value{}
+		}
+		in.pools[locOf(p)] = append(in.pools[locOf(p)], a[1])
+		return nil
+	})
+	reg("(*sync.Pool).Get", "nondeterminism source: a recycled object or New()", func(in *Interp, fn *ssa.Function, a []Value) Value {
+		p := in.ptr(a[0], "Pool.Get")
+		key := locOf(p)
+		if l := in.pools[key]; len(l) > 0 {
+			in.ndSrc++
+			if in.choose(2) == 0 {
+				v := l[len(l)-1]
+				in.pools[key] = l[:len(l)-1]
+				return v
+			}
+		}
+		// field New of sync.Pool
+		st := fn.Signature.Recv().Type().(*types.Pointer).Elem().Underlying().(*types.Struct)
+		for i := 0; i < st.NumFields(); i++ {
+			if st.Field(i).Name() == "New" {
+				nf := p.sub(i).load()
+				if cl, ok := nf.(*Closure); ok && cl != nil {
+					return in.callValue(nf, nil, "Pool.New")
+				}
+				if f, ok := nf.(*ssa.Function); ok && f != nil {
+					return in.callValue(nf, nil, "Pool.New")
+				}
+			}
+		}
+		return Iface{}
+	})
 	// ---- WaitGroup (go-statement mode): a counter per WaitGroup; Done and Wait are edges of the schedule query ----
 	wgAdd := func(in *Interp, p Ptr, n int, site string) {
 		if in.wgCount == nil {
